@@ -123,7 +123,7 @@ theorem parse_attr (K : Consts) (ts : TypeSystem) (tsIdx : Nat) (hp : Heap) (ty 
     rw [List.mem_singleton] at hp
     subst hp
     rw [hc]
-    refine ⟨?_, ?_, ?_, List.mem_singleton.2 rfl⟩ <;> show "elements" ≠ _ <;> decide
+    exact ⟨by show "elements" ≠ ID; decide, List.mem_singleton.2 (by show renRes "elements" = "elements"; decide)⟩
   · intro s' hs'
     simp [alistGet?] at hs'
 
